@@ -439,13 +439,26 @@ func runOne(line string) (obs string) {
 		}()
 		done <- runCase(f)
 	}()
+	// watchdog: 20 s for the first case that does not return, 2 s for later ones, and after 25 such
+	// cases the rest of the file is not run (a code change that deadlocks or loops would otherwise
+	// keep the check busy for hours; the first such case is what gets reported)
+	if nTimeouts >= 25 {
+		return "abn # timeout (not run after 25 cases that did not return)"
+	}
+	limit := 20 * time.Second
+	if nTimeouts > 0 {
+		limit = 2 * time.Second
+	}
 	select {
 	case r := <-done:
 		return r
-	case <-time.After(20 * time.Second):
+	case <-time.After(limit):
+		nTimeouts++
 		return "abn # timeout"
 	}
 }
+
+var nTimeouts int
 
 func cmdRun() {
 	sc := bufio.NewScanner(os.Stdin)
